@@ -456,3 +456,17 @@ func sweepCoverage(run *h.Run, all map[string]sweepStats, order []string) (cases
 	run.Cov["sweeps"] = per
 	return
 }
+
+// pathsOf returns the distinct paths (method and headers stripped) of a request list, in order.
+func pathsOf(reqs []h.Req) []h.Req {
+	seen := map[string]bool{}
+	var out []h.Req
+	for _, q := range reqs {
+		p := h.Req{Segs: q.Segs, Slash: q.Slash, Lead: q.Lead}
+		if k := p.Path(); !seen[k] {
+			seen[k] = true
+			out = append(out, p)
+		}
+	}
+	return out
+}
